@@ -711,7 +711,7 @@ def m_vec_remove(ctx, cty, a):
     return v.items.pop(i)
 
 
-@model("std::vec::Vec::clear")
+@model("std::vec::Vec::clear", "std::collections::VecDeque::clear")
 def m_vec_clear(ctx, cty, a):
     v = deref1(a[0])
     if isinstance(v, StringObj):
@@ -814,7 +814,7 @@ def range_bounds(ctx, r, n):
     raise Inconclusive("range type %s" % r.ty)
 
 
-@model("std::vec::Vec::contains", "core::slice::<impl [_]>::contains")
+@model("std::vec::Vec::contains", "core::slice::<impl [_]>::contains", "std::collections::VecDeque::contains")
 def m_slice_contains(ctx, cty, a):
     x = a[1]
     for it in seq_items(a[0]):
@@ -1008,6 +1008,23 @@ def m_vd_pop_front(ctx, cty, a):
 def m_vd_pop_back(ctx, cty, a):
     v = deref1(a[0])
     return opt_some(v.items.pop()) if v.items else opt_none()
+
+
+@model("std::collections::VecDeque::front", "std::collections::VecDeque::front_mut")
+def m_vd_front(ctx, cty, a):
+    v = deref1(a[0])
+    return opt_some(Ref(v.items, 0, True)) if v.items else opt_none()
+
+
+@model("std::collections::VecDeque::back", "std::collections::VecDeque::back_mut")
+def m_vd_back(ctx, cty, a):
+    v = deref1(a[0])
+    return opt_some(Ref(v.items, len(v.items) - 1, True)) if v.items else opt_none()
+
+
+@model("std::collections::VecDeque::with_capacity")
+def m_vd_with_cap(ctx, cty, a):
+    return VecObj()
 
 
 # ------------------------------------------------------------------ iterators
